@@ -151,7 +151,7 @@ def hAccepted {σ : Type} (P : HParams α n) (Kn : HKernel α n) (f : Rhs α n) 
   let a := Kn.acceptA (fun j => f (T.m.incAccepted.ncalls + j)) T.S s.x h s.y s.k1
   let m := T.m.incAccepted.bump a.2.1 a.2.2
   let st := hStiffTest P Kn s h a.1 m.cnt.accepted
-  if st.2.2.2 then .inr { status := .probablyStiff, h := h, x := s.x, y := s.y, m := m, obs := s.obs }
+  if st.2.2.2 then .inr { status := .probablyStiff, h := h, x := s.x, y := s.y, m := m.decAccepted, obs := s.obs }
   else hFinish P Kn f ob s h last T.hnew (P.facoldNew T.err) st.1 st.2.1 st.2.2.1 a.1 m
 
 /-- one pass of `loop { … }` -/
